@@ -3,10 +3,15 @@ CONSTANTS
   Gen <- MCGen
   HelperPath = "codable"
   Fails <- MCFails
+  Extends <- MCExtends
+  Compare = "equal"
+  MaxDistinct = 2
+  MaxAfterTouch = 2
   EagerWrite = FALSE
   HelperBug = FALSE
   MaxRuns = 3
 SPECIFICATION Spec
 INVARIANT Fresh EmitHistory
 PROPERTIES Idempotent FailedRunTouchesNothing
+CONSTRAINT HistBound
 CHECK_DEADLOCK FALSE
